@@ -410,6 +410,9 @@ impl<'a> Checker<'a>
                 // already; anything else must be a collection of an entity whose signal count reached zero (or a descendant).
                 let Some(e) = self.ents.iter().rposition(|x| x.real == *bits) else { return Ok(true) };
                 if !self.ents[e].alive { return Ok(true); }
+                // (the spec may be in the middle of applying the op that explains it -- a manual despawn of an entity that also happens
+                // to have no clone left is *not* a collection and is not recursive: decide when the next structural event is consumed)
+                if !last_chance { return Ok(false); }
                 if self.doomed_ents.contains(&e) || self.has_doomed_ancestor(e)
                 {
                     self.stats.collected_observed += 1;
@@ -420,8 +423,6 @@ impl<'a> Checker<'a>
                     self.in_gc = saved;
                     return Ok(true);
                 }
-                // (the spec may not have applied the op that explains it yet: judged when the next structural event is consumed)
-                if !last_chance { return Ok(false); }
                 self.pos = fpos;
                 if self.sigs.iter().any(|(se, n)| *se == Some(e) && *n > 0) || self.is_descendant_of_signal(e)
                 {
@@ -982,7 +983,7 @@ impl<'a> Checker<'a>
             for j in 0..i
             {
                 let e = &self.polled[j];
-                if !matches!(e.kind, PKind::Despawn) || e.closed || e.sender != later.sender || e.ent == later.ent || e.sender.0 == 0xFE { continue; }
+                if !matches!(e.kind, PKind::Despawn) || e.closed || e.sender != later.sender || e.ent == later.ent || e.sender.0 == 0xFE || e.epoch != later.epoch { continue; }
                 if e.must.iter().any(|(m, _)| *m == inst) { return Some(e.ent); }
             }
             return None;
@@ -997,7 +998,10 @@ impl<'a> Checker<'a>
         {
             if !unique(j) { continue; }
             let e = &self.polled[j];
-            if e.closed || e.sender != later.sender || e.ent == later.ent || e.sender.0 == 0xFE { continue; }
+            // (only when no poll can have happened between the two events: then every poll that sees the later one sees both and
+            // queues their reactions in event order. With a poll in between, the reaction to the earlier event may already be queued
+            // and be overtaken: its own runner polls before it runs -- C09 lets polled reactions run at any later boundary)
+            if e.closed || e.sender != later.sender || e.ent == later.ent || e.sender.0 == 0xFE || e.epoch != later.epoch { continue; }
             if !matches!(e.kind, PKind::Removal(c2) if c2 == c) { continue; }
             if e.must.iter().any(|(m, _)| *m == inst) && self.removal_listeners_now(e.ent, c).contains(&inst) { return Some(e.ent); }
         }
